@@ -179,7 +179,7 @@ def transcript_spec(draw, max_exons=5, coding=None, max_len=10, zero_gap_cds=Tru
         offset = draw(st.sampled_from([0, 0, 0, 1, 2]))
         frames = rm.frames_from_offset(cds_blocks, strand, offset)
         fs = False
-        if len(cds_blocks) > 1 and draw(st.integers(0, frameshift_prob - 1)) == 0:
+        if frameshift_prob and len(cds_blocks) > 1 and draw(st.integers(0, frameshift_prob - 1)) == 0:
             k = draw(st.integers(0, len(cds_blocks) - 1))
             frames[k] = (frames[k] + draw(st.sampled_from([1, 2]))) % 3
             fs = True
